@@ -498,3 +498,59 @@ Proof.
     change (Node (upd_rep us r) m wf (update us c :: map (update us) ch)) with (update us (Node r m wf (c :: ch))).
     rewrite unrolled_update by exact Vr. rewrite <- map_app. apply IH. exact H.
 Qed.
+
+(* ------------------------------------------------------------------------------------------------------------ *)
+(* T6 (partial): TaborProgram.update_volatile_parameters *)
+Lemma map_replace_nth_same {A B} (f : A -> B) : forall l n x y,
+  nth_error l n = Some y -> f x = f y -> map f (replace_nth n x l) = map f l.
+Proof.
+  induction l as [|z l IH]; intros n x y Hn Hf; [destruct n; discriminate|].
+  destruct n as [|n]; cbn in *.
+  - inversion Hn; subst. rewrite Hf. reflexivity.
+  - f_equal. eapply IH; eauto.
+Qed.
+
+Definition newval (us : list (name * Z)) (r : rep) : Z :=
+  match int_of_rep (upd_rep us r) with Some v => v | None => -1 end.
+Definition shape_tabs (tabs : list (list tent)) := map (map (fun e => (te_wf e, te_vol e))) tabs.
+Definition mod_pos (m : tmod) := match m with TMod p _ _ => p end.
+Definition mod_count (m : tmod) := match m with TMod _ c _ => c end.
+
+(* update_volatile_parameters never changes which table / waveform an entry refers to nor the volatile marks, and every
+   reported modification carries the new value of the count recorded at that position *)
+Lemma update_positions_shape : forall us ps adv tabs adv' tabs' ms,
+  update_positions us ps adv tabs = (adv', tabs', ms) ->
+  map snd adv' = map snd adv /\ shape_tabs tabs' = shape_tabs tabs /\
+  forall m, In m ms -> exists r, In (mod_pos m, r) ps /\ mod_count m = newval us r.
+Proof.
+  intros us. induction ps as [|[p r] rest IH]; intros adv tabs adv' tabs' ms H.
+  - inversion H; subst. repeat split; intros m [].
+  - cbn [update_positions] in H. fold (newval us r) in H.
+    assert (Skip : update_positions us rest adv tabs = (adv', tabs', ms) ->
+                   map snd adv' = map snd adv /\ shape_tabs tabs' = shape_tabs tabs /\
+                   forall m, In m ms -> exists r0, In (mod_pos m, r0) ((p, r) :: rest) /\ mod_count m = newval us r0).
+    { intros H0. destruct (IH _ _ _ _ _ H0) as [A [B C]]. repeat split; auto.
+      intros m Hm. destruct (C m Hm) as [r0 [I E]]. exists r0. split; [right; exact I|exact E]. }
+    destruct p as [a|a q].
+    + destruct (nth_error adv a) as [[old el]|] eqn:Ea; [|auto].
+      destruct (newval us r =? old); [auto|].
+      destruct (update_positions us rest (replace_nth a (newval us r, el) adv) tabs) as [[adv1 tabs1] ms1] eqn:E1.
+      inversion H; subst. destruct (IH _ _ _ _ _ E1) as [A [B C]]. repeat split.
+      * rewrite A. eapply map_replace_nth_same; eauto.
+      * exact B.
+      * intros m [<-|Hm]; [exists r; split; [left; reflexivity|reflexivity]|].
+        destruct (C m Hm) as [r0 [I E]]. exists r0. split; [right; exact I|exact E].
+    + destruct (nth_error adv a) as [[old el]|] eqn:Ea; [|auto].
+      destruct (nth_error tabs (pred el)) as [tb|] eqn:Et; [|auto].
+      destruct (nth_error tb q) as [en|] eqn:Eq; [|auto].
+      destruct (newval us r =? te_count en); [auto|].
+      destruct (update_positions us rest adv
+                  (replace_nth (pred el) (replace_nth q (mkTent (newval us r) (te_wf en) (te_vol en)) tb) tabs))
+        as [[adv1 tabs1] ms1] eqn:E1.
+      inversion H; subst. destruct (IH _ _ _ _ _ E1) as [A [B C]]. repeat split.
+      * exact A.
+      * rewrite B. unfold shape_tabs. eapply map_replace_nth_same; eauto.
+        eapply map_replace_nth_same; eauto.
+      * intros m [<-|Hm]; [exists r; split; [left; reflexivity|reflexivity]|].
+        destruct (C m Hm) as [r0 [I E]]. exists r0. split; [right; exact I|exact E].
+Qed.
